@@ -13,6 +13,7 @@ import FloVerif.Driver.C07
 import FloVerif.Driver.C09
 import FloVerif.Driver.C14
 import FloVerif.Driver.C03
+import FloVerif.Driver.C20
 /-!
 `fvdriver`: reads correspondence transcripts (`<prop> <op> <stream> <inputs…> | <impl outputs…>`) on stdin,
 evaluates the model on the same inputs and prints one `DIFF …` line per disagreement and a `SUMMARY` line.
@@ -36,6 +37,7 @@ def dispatch (prop op stream : String) (ins outs : List String) : List C05.Out :
       { field := o.field, cmp := if o.ok then .same 0 else .diff o.msg, fbit := none }
   | "C14" => (C14.handle op ins outs).map fun o =>
       { field := o.field, cmp := if o.ok then .same 0 else .diff o.msg, fbit := if o.exact then some o.ok else none }
+  | "C20" => C20.handle op stream ins outs
   | "C03" => (C03.handle op ins outs).map fun o =>
       { field := o.field, cmp := if o.ok then .same 0 else .diff o.msg, fbit := none }
   | "C07" => (C07.handle op ins outs).map fun o =>
